@@ -314,6 +314,19 @@ static void runBlocks(const Opt &o, Ev &ev) {
         if (nontrivial(c)) ev.ntCount();
         if (!m.empty()) { failEnum(o, ev, "one", replayOf(c), m); if (ev.failures.size() >= 5) return; }
     }
+    // far beyond: lengths around every power of ten of the header and around the 15/16-bit marks
+    static const int far[] = {9999, 10000, 32767, 32768, 65535, 65536, 70001, 99999, 100000, 131072};
+    for (size_t fi = 0; fi < sizeof far / sizeof far[0]; fi++) {
+        if ((int) (fi % (size_t) o.workers) != o.worker) continue;
+        for (int kind = 0; kind < 2; kind++) {
+            RT c;
+            if (kind == 0) { c.item.kind = O_BLOCK; c.reader.kind = R_BLOCK; } else { c.item.kind = O_TEXT; c.reader.kind = R_TEXT; c.reader.n = far[fi] + 1; }
+            for (int i = 0; i < far[fi]; i++) { if ((i & 7) == 0) rng = splitmix(rng); unsigned ch = (unsigned) (rng >> ((i & 7) * 8)) & 0xff; c.item.s += kind == 0 ? (char) ch : (char) (0x20 + ch % 0x5f); }
+            std::string m = roundTrip(c);
+            ev.eval(); ev.ntCount(); ev.label(kind == 0 ? "far-out-block" : "far-out-text");
+            if (!m.empty()) { failEnum(o, ev, "one", replayOf(c), m); if (ev.failures.size() >= 5) return; }
+        }
+    }
     ev.exhaustive["arbitrary blocks of every length 0..1100 (bytes derived from the seed, with LF ; CR planted)"] = true;
 }
 
@@ -323,7 +336,7 @@ static uint64_t biased64(Src &s) {
         case 0: return s.u64() >> s.range(0, 63);
         case 1: return (1ULL << s.range(0, 63)) + (uint64_t) (int64_t) s.irange(-2, 2);
         case 2: { uint64_t p = 1; int e = (int) s.range(0, 19); while (e--) p *= 10; uint64_t v = p + (uint64_t) (int64_t) s.irange(-2, 2); return s.coin() ? v : 0 - v; }
-        case 3: return s.u64();
+        case 3: { if (s.coin()) return s.u64(); uint64_t v = 0; int k = (int) s.range(1, 4); for (int i = 0; i < k; i++) { uint64_t p = 1; int e = (int) s.range(0, 19); while (e--) p *= 10; v += p * s.range(1, 9); } return s.coin() ? v : 0 - v; }   // uniform, or a few decimal digits (1000000010)
         default: return s.coin() ? 0x8000000000000000ULL : (s.coin() ? ~0ULL : 0x7fffffffffffffffULL);
     }
 }
